@@ -176,12 +176,15 @@ ClashModelOK(c) == Ref(c, "local").ok /\ Render(World(LibOnlyTp(c)), "main", Ctx
 \* siblings of its own library, whatever the caller has imported under the same names.
 LibB == <<Macro("mm", <<Param("a")>>, <<T(<<66>>), PrintS(Call("hh", <<Var("a")>>))>>), Macro("hh", <<Param("v")>>, <<T(<<79, 72>>), PrintS(Var("v"))>>)>>
 TwoLibCases == {[twolibs |-> r, ar |-> 1, defs |-> {}, n |-> 1, bk |-> "nested", site |-> site, argstyle |-> "plain"]
-                  : r \in {"import", "fromas", "include", "includefrom"}, site \in {"top", "loop", "block"}}
+                  \* (ownhelper / ownhelperimp: the calling template has a macro of its own under the NAME of the library's helper)
+                  : r \in {"import", "fromas", "include", "includefrom", "ownhelper", "ownhelperimp"}, site \in {"top", "loop", "block"}}
 TwoLibTp(c) ==
-    LET callA == PrintS(Call("mm", <<LI(10)>>))
+    LET callA == IF c.twolibs = "ownhelperimp" THEN PrintS(MCall("K", "mm", <<LI(10)>>)) ELSE PrintS(Call("mm", <<LI(10)>>))
+        own == IF c.twolibs \in {"ownhelper", "ownhelperimp"} THEN <<Macro("hh", <<Param("v")>>, <<T(<<76, 79, 67>>)>>)>> ELSE <<>>
         reach == CASE c.twolibs = "import" -> <<Import(LS(NT.t3), "L")>> [] c.twolibs = "fromas" -> <<From(LS(NT.t3), <<"mm">>, <<"qq">>)>> [] OTHER -> <<>>
-        callB == CASE c.twolibs = "import" -> PrintS(MCall("L", "mm", <<LI(7)>>)) [] c.twolibs = "fromas" -> PrintS(Call("qq", <<LI(7)>>)) [] OTHER -> Inc(LS(NT.t2))
-    IN ("main" :> <<From(LS(NT.t1), <<"mm">>, <<"mm">>)>> \o reach \o Site(c, "local", <<callA, T(<<124>>), callB, T(<<124>>), callA>>))
+        callB == CASE c.twolibs = "import" -> PrintS(MCall("L", "mm", <<LI(7)>>)) [] c.twolibs = "fromas" -> PrintS(Call("qq", <<LI(7)>>))
+                   [] c.twolibs \in {"ownhelper", "ownhelperimp"} -> PrintS(Call("hh", <<LI(7)>>)) [] OTHER -> Inc(LS(NT.t2))
+    IN ("main" :> own \o (IF c.twolibs = "ownhelperimp" THEN <<Import(LS(NT.t1), "K")>> ELSE <<From(LS(NT.t1), <<"mm">>, <<"mm">>)>>) \o reach \o Site(c, "local", <<callA, T(<<124>>), callB, T(<<124>>), callA>>))
        @@ ("t1" :> Defs(c)) @@ ("t3" :> LibB)
        @@ ("t2" :> IF c.twolibs = "include" THEN LibB \o <<PrintS(Call("mm", <<LI(7)>>))>> ELSE <<From(LS(NT.t3), <<"mm">>, <<"mm">>), PrintS(Call("mm", <<LI(7)>>))>>)
 CaseOfTwoLibs(c) ==
